@@ -89,7 +89,9 @@ func C03() int {
 	if !thorough(c) {
 		pf = []Flags{{}, {N: true, B: true, I: true, W: true, R: sp("[x]")}}
 	}
+	WholeRuns = 0 // the product is one synthetic tree per line; the grammar corpus above carries the one-process arrangement
 	RunCorpus(s, prod, pf, 1000, judge)
+	WholeRuns = -1
 	reportBatchAnomalies(c)
 	c.Set("flag_sets", flagNames(fsets))
 	c.Set("race_reports", s.RaceReports())
